@@ -178,11 +178,16 @@ def rule_eofmark(ctx, R, body_name=None):
     return dict((r[0], r[2]) for r in p_c14.RULES)["C14.KEEPNL"](ctx, R)
 
 
+def rule_show(ctx, R):
+    return p_c11.rule_show(ctx, R, INTERP)
+
+
 RULES = [
     ("C12.STATE", "the session state is threaded through execute() from line to line; clear = fresh state", rule_state),
     ("C12.FLUSH", "per-line output is flushed before the next prompt", rule_flush),
     ("C12.ONCE", "capturing writer delivers text exactly once", p_c11.rule_once),
     ("C12.EXITFLUSH", "program-requested exits flush both writers first", p_c01.rule_pop),
     ("C12.LOOP", "execute(): run from the appended command until control passes it", p_c01.rule_loop),
+    ("C12.SHOW", "the display callbacks of the per-line writers show every non-empty text (whitespace-only output is output)", rule_show),
     ("C12.EOFMARK", "the interactive loop takes the empty string as end of input, so the real stdin reader must hand every entered line back with its terminator (shared with C14.KEEPNL)", rule_eofmark),
 ]
